@@ -40,6 +40,38 @@ def mk_la(LP, s):
     return LP.LAlg(LP.LPoly(list(ic), idm), LP.LPoly(list(xc), xdm))
 
 
+def spec_of_lp(x):
+    """what a Laurent polynomial object says it is (stored coefficients and lowest power), as exact numbers"""
+    if bool(x.iszero):
+        return [], int(x.dmin)
+    cs = [complex(c) for c in np.asarray(x.coefs).tolist()]
+    if any(c.imag != 0 for c in cs):
+        raise ValueError("complex coefficient from real operands")
+    return [float(c.real) for c in cs], int(x.dmin)
+
+
+def derived(LP, rng, A):
+    """an operand that is itself the RESULT of an earlier operation (conjugate, negative, scalar multiple, product):
+    returns the object and the element it says it is; the next operation must treat it as exactly that element"""
+    a0 = mk_la(LP, A)
+    how = str(rng.choice(["conj", "neg", "smul", "mul", "conj-conj", "lpmul"]))
+    if how == "conj":
+        a = ~a0
+    elif how == "neg":
+        a = -a0
+    elif how == "smul":
+        a = a0 * float(rng.choice([2.0, -0.5, 0.25]))
+    elif how == "conj-conj":
+        a = ~(~a0)
+    elif how == "lpmul":
+        a = a0 * LP.LPoly([1.0, 0.5], int(rng.integers(-3, 4)))
+    else:
+        a = a0 * mk_la(LP, la_spec(rng, maxlen=4))
+    ic, idm = spec_of_lp(a.IPoly)
+    xc, xdm = spec_of_lp(a.XPoly)
+    return a, (ic, idm, xc, xdm), how
+
+
 def enc_la(s):
     ic, idm, xc, xdm = s
     return "%s %s" % (enc(ic, idm), enc(xc, xdm))
@@ -105,6 +137,24 @@ def op_case(ctx, LP, rng):
     pd = int(rng.integers(-9, 10))
     a, b = mk_la(LP, A), mk_la(LP, B)
     p = LP.LPoly(list(pc), pd)
+    if rng.random() < 0.3:
+        # second-generation operands: results of earlier operations, used again
+        try:
+            which = str(rng.choice(["a", "b", "ab", "p"]))
+            if "a" in which:
+                a, A, how = derived(LP, rng, A)
+                ctx.count("derived-operand:a:" + how)
+            if "b" in which:
+                b, B, how = derived(LP, rng, B)
+                ctx.count("derived-operand:b:" + how)
+            if which == "p" and pc:
+                p = ~LP.LPoly(list(pc), pd) if rng.random() < 0.5 else -(~LP.LPoly(list(pc), pd))
+                pc, pd = spec_of_lp(p)
+                ctx.count("derived-operand:p")
+        except Exception as e:  # noqa
+            ctx.count("derived-operand:unavailable:" + type(e).__name__)
+            a, b = mk_la(LP, A), mk_la(LP, B)
+            p = LP.LPoly(list(pc), pd)
 
     def snap():
         return tuple((np.asarray(x.coefs).tobytes(), int(x.dmin), bool(x.iszero)) for x in (a.IPoly, a.XPoly, b.IPoly, b.XPoly, p))
